@@ -4,7 +4,7 @@ From QS Require Import theories.Val theories.EntryBroker theories.EntryCal theor
 Import ListNotations.
 Open Scope string_scope.
 
-Definition dispatch (name : string) (v : val) : val :=
+Definition dispatch1 (name : string) (v : val) : val :=
   if String.eqb name "broker_run" then entry_broker_run v
   else if String.eqb name "portfolio_run" then entry_portfolio_run v
   else if String.eqb name "is_open" then entry_is_open v
@@ -25,3 +25,12 @@ Definition dispatch (name : string) (v : val) : val :=
   else if String.eqb name "session" then entry_session v
   else if String.eqb name "spec" then entry_spec v
   else VL [VS "UNKNOWN_ENTRY"].
+
+(** "multi": [[name; arg]; ...] -> [result; ...] *)
+Definition dispatch (name : string) (v : val) : val :=
+  if String.eqb name "multi" then
+    match v with
+    | VL l => VL (map (fun x => match x with VL [VS n; a] => dispatch1 n a | _ => VL [VS "BAD_INPUT"] end) l)
+    | _ => VL [VS "BAD_INPUT"]
+    end
+  else dispatch1 name v.
